@@ -344,6 +344,8 @@ def agrees(got, exp):
         return abs(float(got) ** 2 - q) <= 1e-9 * max(1.0, abs(q))
     if got == "missing" or isinstance(got, str):
         return False
+    if isinstance(got, int) and not isinstance(got, bool) and Fraction(exp).denominator == 1:
+        return got == int(Fraction(exp))          # an integer result is exact (also beyond 2**53, where a float is not)
     q = float(exp)
     return abs(float(got) - q) <= 1e-9 * max(1.0, abs(q))
 
